@@ -102,11 +102,15 @@ func PositionInside(text []byte, line, col int) bool {
 
 // EmitCase writes one record for the model driver.
 //
-//	CASE id stream hex / TEXT / DOMAIN / TOK* / PRS* / PARSE / P.<SEC>* / FMT* / WTEXT / extra* / END
+//	CASE id stream hex / TEXT / DOMAIN / DIGITS / TOK* / PRS* / PARSE / P.<SEC>* / FMT* / WTEXT / extra* / END
+//
+// DOMAIN 1: the model driver compares this record (0: implementation only). DIGITS: the
+// non-ASCII characters of the text for which unicode.IsDigit holds (the model's [ud]).
 func EmitCase(w *bufio.Writer, id int, stream string, hex bool, text []byte, o Outcome, extra []string) {
 	fmt.Fprintf(w, "CASE %d %s %d\n", id, stream, b2i(hex))
 	fmt.Fprintf(w, "TEXT %s\n", cpsLine(Cps(text)))
-	fmt.Fprintf(w, "DOMAIN %d\n", b2i(InModelDomain(text)))
+	fmt.Fprintf(w, "DOMAIN 1\n")
+	fmt.Fprintf(w, "DIGITS %s\n", cpsLine(UniDigits(text)))
 	toks := dbc.VerifScanAll(text)
 	seen := map[string]bool{}
 	for _, t := range toks {
